@@ -41,7 +41,7 @@ def run(ctx):
     good = c14._cal_batch([738000, 738155])
     suites.append(("Trace_Text", "calinfo", good, [dict(e, c=dict(e["c"], week_w=e["c"]["week_w"] + 1)) for e in good], None))
     cases = [c09.gen_case(rng, "MAJOR.MINOR.PATCH", 5) for _ in range(6)]
-    keep = ("ev", "P", "cfgver", "all", "branch", "scope", "ignore", "show", "show_clean", "old", "new", "exit", "exit_clean", "today")
+    keep = ("ev", "P", "cfgver", "all", "branch", "scope", "uscope", "ignore", "show", "show_clean", "old", "new", "exit", "exit_clean", "today")
     good = [{k: e[k] for k in keep} for e in (c09.replay((c, i)) for i, c in enumerate(cases))]
     suites.append(("Trace_Text", "resolve", good, [dict(e, show=bump_text(e["show"])) for e in good], None))
 
